@@ -582,7 +582,7 @@ impl Value {
                                     .unwrap_or(Value::Null)
                                     .into(),
                                 (Value::String(str), Value::Int(idx)) => {
-                                    match str.get(idx as usize..(idx + 1) as usize) {
+                                    match str.get(idx as usize..(idx as usize).wrapping_add(1)) {
                                         None => Ok(Value::Null),
                                         Some(str) => Ok(Value::String(str.to_string().into())),
                                     }
